@@ -72,20 +72,26 @@ pub enum Which {
     C10,
     /// chain stage of C11: order of block operands, both operands of fold / try_fold
     C11,
+    /// bounds stage of C19: move-only / !Send values, borrows of the caller's stack
+    C19,
 }
 
 /// closing mode of the forced wrapper (C02): 0 explicit `<<<`, 1 implicit at the end of a step, 2 implicit at the end of the branch
 fn gen_prog(rng: &mut TestRng, i: usize, which: Which) -> ChainProg {
-    let mac = MACROS[i % 12];
+    let mac = if which == Which::C19 { ["join", "try_join", "join_async", "try_join_async"][i % 4] } else { MACROS[i % 12] };
     let kind = macro_kind(mac);
     let fam = if kind.is_async { Family::AsyncClosed } else { Family::Sync };
-    let nb = 1 + (rng.random_range(0..6usize) / 3) + if rb(rng, 0.15) { 1 } else { 0 }; // mostly 1-2, sometimes 3
+    let mut nb = 1 + (rng.random_range(0..6usize) / 3) + if rb(rng, 0.15) { 1 } else { 0 }; // mostly 1-2, sometimes 3
+    if which == Which::C19 {
+        nb = rng.random_range(1..8usize); // wide joins too
+    }
     let try_res = rb(rng, 0.5) || kind.is_async;
     let (force, close_mode) = match which {
         Which::C01 | Which::C10 => {
             let (sp, c) = SPELLINGS[i % 22];
             (Some((c, sp == ">.", false)), 0)
         }
+        Which::C19 => (None, 0),
         Which::C11 => {
             // every operator that takes expression operands; fold / try_fold (two operands) twice as often
             let hoistable = [Comb::Map, Comb::AndThen, Comb::Filter, Comb::Inspect, Comb::Then, Comb::Chain, Comb::FindMap, Comb::FilterMap, Comb::Partition, Comb::Find, Comb::Zip, Comb::Or, Comb::OrElse, Comb::MapErr, Comb::Fold, Comb::TryFold, Comb::Fold, Comb::TryFold];
@@ -109,6 +115,7 @@ fn gen_prog(rng: &mut TestRng, i: usize, which: Which) -> ChainProg {
                 _ => 0.15,
             },
             ck: if which == Which::C10 { 0.5 } else { 0.0 },
+            ns: if which == Which::C19 { 0.6 } else { 0.0 },
             wrappers: if which == Which::C02 { 0.3 } else { 0.12 },
             shapes: true,
             allow_deferred: !kind.is_try && !kind.is_async,
@@ -122,9 +129,30 @@ fn gen_prog(rng: &mut TestRng, i: usize, which: Which) -> ChainProg {
         // in the async-closed family some wrappers do not exist for every type: fall back below
         let (mut init_ty, mut ops) = init_for(&mut g, if b == 0 { force.map(|f| f.0) } else { None }, which == Which::C02);
         let mut init_text = format!("inp::<{}>({})", init_ty.name(), b);
+        let mut locals: Vec<String> = Vec::new();
+        let mut borrowed = false;
+        if which == Which::C19 && rb(g.rng, 0.5) {
+            // the branch borrows - shared or mutably - from a local of the calling function
+            let it = Ty::Iter(Box::new(Ty::I64));
+            if rb(g.rng, 0.5) {
+                locals.push(format!("let __loc{b} = inp::<Vec<i64>>({k});", b = b, k = 100 + b));
+                locals.push(format!("let __r{b} = &__loc{b};", b = b));
+                init_text = format!("__r{}.iter()", b);
+                let id = g.base + 800;
+                ops = vec![COp { comb: Comb::Map, alt: false, deferred: false, operands: vec![format!("rd({})", id)], inner: None, closed: true, out: it.clone() }];
+            } else {
+                locals.push(format!("let mut __locm{b} = inp::<Vec<i64>>({k});", b = b, k = 200 + b));
+                locals.push(format!("let __m{b} = &mut __locm{b};", b = b));
+                init_text = format!("__m{}.iter_mut()", b);
+                let id = g.base + 801;
+                ops = vec![COp { comb: Comb::Map, alt: false, deferred: false, operands: vec![format!("inc_mut({})", id)], inner: None, closed: true, out: it.clone() }];
+            }
+            init_ty = Ty::Vec(Box::new(Ty::I64));
+            borrowed = true;
+        }
         // sometimes the initial value is an expression that binds weaker than a method call: the
         // documented chain applies the first combinator to the whole value
-        if !(b == 0 && force.is_some()) && rb(g.rng, 0.25) {
+        if !(b == 0 && force.is_some()) && !borrowed && rb(g.rng, 0.25) {
             let (t, text) = match g.rng.random_range(0..5) {
                 0 => (Ty::I64, format!("inp::<i64>({}) + inp::<i64>({})", b, b + 50)),
                 1 => (Ty::I64, format!("-inp::<i64>({})", b)),
@@ -198,7 +226,7 @@ fn gen_prog(rng: &mut TestRng, i: usize, which: Which) -> ChainProg {
                 ops[n2 - 2].closed = true;
             }
         }
-        branches.push(ChainBranch { init_ty: init_ty.clone(), init_text: init_text.clone(), ops, fin });
+        branches.push(ChainBranch { locals, init_ty: init_ty.clone(), init_text: init_text.clone(), ops, fin });
     }
     ChainProg { mac: mac.to_string(), branches }
 }
@@ -238,6 +266,11 @@ pub fn case_code(p: &ChainProg, idx: usize) -> (String, usize, usize, bool) {
     let body: Vec<String> = p.branches.iter().map(render_branch_macro).collect();
     let mut mac = String::new();
     mac.push_str(&format!("#[allow(unused, non_snake_case)]\nfn case_{}_mac() -> String {{\n    use jvrt::chainrt::*;\n", idx));
+    for b in &p.branches {
+        for l in &b.locals {
+            mac.push_str(&format!("    {}\n", l));
+        }
+    }
     if kind.is_async {
         mac.push_str(&format!("    block_on(async {{\n        let __r = ::join::{}! {{\n            {}\n        }}.await;\n        format!(\"{{:?}}\", __r)\n    }})\n}}\n", p.mac, body.join(",\n            ")));
     } else {
@@ -259,6 +292,11 @@ pub fn case_code(p: &ChainProg, idx: usize) -> (String, usize, usize, bool) {
     let concurrent = n >= 2;
     let mut r = String::new();
     r.push_str(&format!("#[allow(unused, non_snake_case)]\nfn case_{}_ref() -> String {{\n    use jvrt::chainrt::*;\n", idx));
+    for b in &p.branches {
+        for l in &b.locals {
+            r.push_str(&format!("    {}\n", l));
+        }
+    }
     let mut inner = String::new();
     for d in &defs {
         inner.push_str(&format!("    {}\n", d));
@@ -426,6 +464,7 @@ pub fn run(id: &str, tier: &str, seed: u64) -> i32 {
         "C02" => Which::C02,
         "C10" => Which::C10,
         "C11" => Which::C11,
+        "C19" => Which::C19,
         _ => Which::C01,
     };
     let (count, inputs) = match (which, tier) {
@@ -440,6 +479,7 @@ pub fn run(id: &str, tier: &str, seed: u64) -> i32 {
     ev.rule = match which {
         Which::C01 => "programs: typed chains (random walk over i64 / usize / bool / () / Option / Result<_, i64> / Vec / tuples / iterators, nesting <= 3), 1-3 independent chains per invocation, length 1-8 plus closing; program i is forced to contain operator spelling i mod 22 and uses macro name i mod 12 (async macros: a sync chain closed with `-> ready`, `??` meaning `.inspect`); operands fully typed, in varied shapes (call returning a closure, typed closure, closure with return type, parenthesised, macro call, block capture), `~` at random positions in the non-try sync macros; inputs: 8 boundary seeds + proptest-free hash-derived seeds building the initial values (None / Err / empty and non-empty vectors included). Oracle: differential against the documented method chain with the same operand text compiled in the same binary - Debug of the result, ordered callback-invocation trace (per branch when branches run on threads), multiset of all events; the macro side not compiling while the reference side does is a violation, the reverse is a generator bug (exit 2). Non-trivial = >= 2 operators and >= 1 callback invoked on that input",
         Which::C10 => "chain stage: typed chains as in C01 (all 22 operator spellings forced in turn, all 12 macro names) with block captures on 35 % of the operands and the clone- and drop-counting value type `Ck` in half of the scalar positions (fold / try_fold initial values, iterator items, Option / Result payloads); oracle against the documented chain compiled in the same binary: equal multiset of evaluation events (every operand expression and capture once, every callback as often as the std method calls it - per element for iterator callbacks), equal number of clones of counted values, no counted value alive after the result is dropped. Non-trivial = >= 2 callbacks invoked and >= 1 capture",
+        Which::C19 => "bounds stage: typed chains under join! / try_join! / join_async! / try_join_async! with 1-7 branches whose values include `Ns` (holds an Rc: neither Send nor Clone) and `Mv` (move-only) in 60 % of the scalar positions, and half of whose branches borrow - shared (`&Vec` iterated) or mutably (`iter_mut` with a callback that changes the element in place) - from locals of the calling function; oracle: the macro side compiles whenever the documented chain compiles (a new Clone / Send / 'static requirement is a compile error on the macro side only) and both give the same result and callback traces. Non-trivial = >= 2 operators and >= 1 callback invoked",
         Which::C11 => "chain stage: typed chains in which program i is forced to contain hoistable operator i mod 18 (the 14 expression-operand operators, `^@` / `?^@` twice as often) with block operands on 60 % of the operand positions - both operands of fold / try_fold, operands inside nested wrappers, several per branch and step; oracle: per branch the sequence of capture evaluations equals the written (position) order, each exactly once. Non-trivial = >= 2 captures evaluated",
         Which::C02 => "programs: typed chains in which program i is forced to contain wrapper operator (i / 3) mod 10 with closing mode i mod 3 (explicit `<<<`, implicit at the end of a step, implicit at the end of the branch), nesting depth <= 3, inner chains of length 0-3 generated goal-directed for the type each wrapper needs (&T -> bool for ?> ?@ ?&!>, T -> Option for ?|> ?|>@ =>, E -> Result for <=, E -> E for !>, &W -> () for ??), inner block captures, operators after `<<<`; all 12 macro names; inputs and oracle as C01 with the reference `.x(|v| v inner...) rest`. Non-trivial = >= 2 operators and >= 1 callback invoked",
     }
@@ -450,7 +490,7 @@ pub fn run(id: &str, tier: &str, seed: u64) -> i32 {
         "async macros are exercised with sync chains closed by `-> ready` (the repository's own idiom); chains over real futures / streams are not generated".into(),
     ];
     let known = evid::Known::load();
-    let mut runner = new_runner(seed, match which { Which::C01 => 0xc01, Which::C02 => 0xc02, Which::C10 => 0xc10, Which::C11 => 0xc11 }, 1);
+    let mut runner = new_runner(seed, match which { Which::C01 => 0xc01, Which::C02 => 0xc02, Which::C10 => 0xc10, Which::C11 => 0xc11, Which::C19 => 0xc19 }, 1);
     let mut progs: Vec<ChainProg> = Vec::new();
     let mut seen = HashSet::new();
     for i in 0..count {
